@@ -160,6 +160,19 @@ fn gen_arg(rng: &mut Rng, info: &CmdInfo, crlf: bool) -> String {
     }
 }
 
+fn is_flag_word(t: &str) -> bool {
+    let t = t.trim_matches('"');
+    t == "true" || t == "false"
+}
+
+/// the text defines a function named true or false
+fn defines_flag_function(lines: &[String]) -> bool {
+    lines.iter().any(|l| {
+        let toks: Vec<&str> = l.split_whitespace().collect();
+        toks.iter().position(|t| *t == "function" || *t == "fn" || *t == "std::flowcontrol::Function").map(|k| toks[k + 1..].iter().any(|t| is_flag_word(t))).unwrap_or(false)
+    })
+}
+
 fn gen_lines(rng: &mut Rng, avoid: &[String]) -> Vec<String> {
     let cat = catalogue();
     let mut lines: Vec<String> = PRELUDE.iter().map(|s| s.to_string()).collect();
@@ -189,6 +202,10 @@ fn gen_lines(rng: &mut Rng, avoid: &[String]) -> Vec<String> {
             // known finding: join_path (and cp_glob through it) does not terminate on values with a line break
             let crlf_ok = !(avoid.iter().any(|a| a == "crlf_value_hang") && (info.name == "std::fs::JoinPath" || info.name == "std::fs::CPGlob"));
             l.push_str(&gen_arg(rng, info, crlf_ok));
+        }
+        if info.name == "std::flowcontrol::Function" && avoid.iter().any(|a| a == "function_named_like_flag") {
+            // known finding: a function called true/false is invoked by the conditions of script-implemented commands
+            l = l.split(' ').map(|t| if is_flag_word(t) { "flagless" } else { t }).collect::<Vec<_>>().join(" ");
         }
         lines.push(l);
     }
@@ -628,6 +645,16 @@ impl Prop for C07 {
                     && match &case.workload {
                         Workload::Lines(lines) => lines.iter().any(|l| l.contains("\\r") || l.contains("\\n")),
                         Workload::Raw(t) => t.contains('\r') || t.contains("\\r") || t.contains("\\n"),
+                        _ => false,
+                    }
+            }
+            // a user function named like a flag value is invoked by "if ${flag}" inside script-implemented commands,
+            // with the line numbers of another instruction list: unbounded native recursion
+            "function_named_like_flag" => {
+                (class.starts_with("abort:") || class == "hang:native")
+                    && match &case.workload {
+                        Workload::Lines(lines) => defines_flag_function(lines),
+                        Workload::Raw(t) => defines_flag_function(&t.lines().map(|l| l.to_string()).collect::<Vec<_>>()),
                         _ => false,
                     }
             }
